@@ -96,6 +96,7 @@ type request struct {
 	FlipByte    int      `json:"flipbyte,omitempty"`
 	FlipBit     int      `json:"flipbit,omitempty"`
 	WrongKey    evid.Hex `json:"wrongkey,omitempty"`
+	UpperHex    bool     `json:"upperhex,omitempty"` // the hexadecimal strings of the request are written in upper case
 }
 
 // world is the configuration of one handler.
@@ -356,6 +357,11 @@ func jsonReqOf(d *device, rq *request) jsonReq {
 	j.DLSettings = fmt.Sprintf("%02x", dlSettingsByte(rq))
 	j.RxDelay = &rxd
 	j.CFList = hex.EncodeToString(rq.CFList)
+	if rq.UpperHex {
+		// the backend interfaces define these members as hexadecimal strings without prescribing a case
+		j.PHYPayload, j.CFList, j.DevEUI = strings.ToUpper(j.PHYPayload), strings.ToUpper(j.CFList), strings.ToUpper(j.DevEUI)
+		j.DevAddr, j.DLSettings = strings.ToUpper(j.DevAddr), strings.ToUpper(j.DLSettings)
+	}
 	return j
 }
 
@@ -462,7 +468,17 @@ func judge(w *world, rq *request, status int, ansBody []byte, acceptK4 bool) ver
 		v.viol = in + ": " + fmt.Sprintf(format, args...) + fmt.Sprintf(" (answer %s)", ansBody)
 		return v
 	}
-	// every answer mirrors sender, receiver and the transaction id
+	// every answer mirrors sender, receiver and the transaction id: the members are there (a transaction id of 0 is
+	// an id like any other, not an absent one)
+	var members map[string]json.RawMessage
+	if err := json.Unmarshal(ansBody, &members); err != nil {
+		return fail("the answer is not a JSON object: %v", err)
+	}
+	for _, name := range []string{"SenderID", "ReceiverID", "TransactionID"} {
+		if _, ok := members[name]; !ok {
+			return fail("the answer has no %s member (request: SenderID %q ReceiverID %q TransactionID %d)", name, senderID(rq), receiverID(rq), rq.TxID)
+		}
+	}
 	if a.SenderID != receiverID(rq) || a.ReceiverID != senderID(rq) || a.TransactionID != rq.TxID || a.MessageType != ansMessageType(rq.Flow) {
 		return fail("answer carries SenderID=%q ReceiverID=%q TransactionID=%d MessageType=%q, want %q %q %d %q",
 			a.SenderID, a.ReceiverID, a.TransactionID, a.MessageType, receiverID(rq), senderID(rq), rq.TxID, ansMessageType(rq.Flow))
@@ -756,6 +772,7 @@ func genRequest(t *rapid.T, w *world, nets []uint32) request {
 	if rq.Flow == flowHomeNS {
 		return rq
 	}
+	rq.UpperHex = rapid.IntRange(0, 3).Draw(t, "upperhex") == 0
 	rq.Nonce = genNonce16(t, "nonce")
 	rq.DevAddr = uint32(gen.U64(t, "devaddr"))
 	rq.RX1DROffset = byte(rapid.IntRange(0, 7).Draw(t, "rx1droffset"))
@@ -974,8 +991,8 @@ const ruleRequests = "rapid: one provisioned device (uniform 16-byte NwkKey/AppK
 	"known or unknown to the device-keys callback), SenderID = uniform 24-bit NetID with or without a 16/24/32-byte NS KEK, AS KEK label absent / configured / " +
 	"label without KEK, flow join-request (OptNeg both; negative variants: one bit of MHDR.Major|JoinEUI|DevEUI|DevNonce|MIC flipped, MIC under another key), " +
 	"rejoin-request type 0/1/2 (OptNeg set, MIC under SNwkSIntKey / JSIntKey), HomeNSReq; boundary-biased 16-bit DevNonce/RJCount, uniform DevAddr, RX1DROffset 0..7, " +
-	"RX2DR 0..15, RxDelay 0..15, CFList absent / 5 channels / 1..6 masks, random TransactionID; request JSON built from plain strings, served through ServeHTTP " +
-	"(httptest). Oracle: device + NS model from package ref only: mirrored SenderID/ReceiverID/TransactionID and Ans message type; Success; join-accept decrypts " +
+	"RX2DR 0..15, RxDelay 0..15, CFList absent / 5 channels / 1..6 masks, boundary-biased TransactionID (0 included); request JSON built from plain strings (hexadecimal members in upper case in 1/4 of the requests), served through ServeHTTP " +
+	"(httptest). Oracle: device + NS model from package ref only: mirrored SenderID/ReceiverID/TransactionID (present as members of the raw JSON answer) and Ans message type; Success; join-accept decrypts " +
 	"under NwkKey (join) / JSEncKey (rejoin), MIC = reference join-accept MIC under NwkKey (OptNeg clear) / JSIntKey (OptNeg set, JoinReqType ff/00/01/02, JoinEUI, " +
 	"DevNonce/RJCount), echoes JoinNonce, NetID = SenderID, DevAddr, DLSettings, RxDelay, CFList bytes; envelopes: clear 16-byte key when no KEK is configured for " +
 	"the label (NS label = SenderID, AS label per device), else KEKLabel = label and reference RFC 3394 unwrap; keys = reference SessionKeys10 (OptNeg clear) / " +
